@@ -60,6 +60,10 @@ func (g *smallGen) ttl() time.Duration {
 		// any int64 duration for which now+d stays inside int64 nanoseconds
 		return time.Duration(g.r.Int64N(1<<61+1<<62) - 1<<62)
 	}
+	if g.r.chance(0.03) {
+		// durations for which call time + d overflows: the entry must simply stay visible
+		return pick(g.r, []time.Duration{math.MaxInt64, math.MaxInt64 - 1, 250 * 365 * 24 * time.Hour})
+	}
 	switch g.r.intn(10) {
 	case 0, 1, 2, 3:
 		return pick(g.r, ttlCatalogue)
@@ -87,7 +91,7 @@ func (g *smallGen) next(m *ttlModel, now int64, step int) cop {
 		if e.e != 0 {
 			if now > e.e {
 				expired = append(expired, k)
-			} else if e.e-now <= int64(48*time.Hour) {
+			} else if e.e != farFuture && e.e-now <= int64(48*time.Hour) {
 				// far-away instants are not chased: now+d must stay inside int64 ns
 				pending = append(pending, k)
 			}
